@@ -15,8 +15,8 @@ import ast
 import os
 import sys
 
-INT, BOOL, OPTINT, OPTBOOL, STR = "int", "bool", "optint", "optbool", "str"
-COQTY = {INT: "Z", BOOL: "bool", OPTINT: "option Z", OPTBOOL: "option bool"}
+INT, BOOL, OPTINT, OPTBOOL, STR, LISTPAIR = "int", "bool", "optint", "optbool", "str", "listpair"
+COQTY = {INT: "Z", BOOL: "bool", OPTINT: "option Z", OPTBOOL: "option bool", LISTPAIR: "list (Z * Z)"}
 
 
 class Untranslatable(Exception):
@@ -31,12 +31,13 @@ class Fn:
     """one target: class name, function name, kind ('method'|'getter'|'setter'|'classmethod'), parameter types,
     self field types, the self fields reported in the result, and whether a return value is reported"""
 
-    def __init__(self, cls, name, kind, params, selff, out_fields, ret, coq_name):
+    def __init__(self, cls, name, kind, params, selff, out_fields, ret, coq_name, file=None):
         self.cls, self.name, self.kind, self.params, self.selff = cls, name, kind, params, selff
-        self.out_fields, self.ret, self.coq_name = out_fields, ret, coq_name
+        self.out_fields, self.ret, self.coq_name, self.file = out_fields, ret, coq_name, file
 
 
 SIG_SELF = {"is_little_endian": BOOL, "size": INT, "start_bit": INT, "name": STR}
+MUX_SELF = {"mux_val_grp": LISTPAIR, "mux_val": OPTINT}
 ARB_SELF = {"id": INT, "extended": BOOL}
 
 TARGETS = [
@@ -44,6 +45,7 @@ TARGETS = [
        SIG_SELF, ["start_bit"], None, "gen_set_startbit"),
     Fn("Signal", "get_startbit", "method", [("bit_numbering", OPTINT), ("start_little", OPTBOOL)],
        SIG_SELF, [], INT, "gen_get_startbit"),
+    Fn("Signal", "multiplexer_value_in_range", "method", [("mux_value", OPTINT)], MUX_SELF, [], BOOL, "gen_multiplexer_value_in_range", file="Gen_mux.v"),
     Fn("ArbitrationId", "__attrs_post_init__", "method", [], ARB_SELF, ["id", "extended"], None, "gen_post_init"),
     Fn("ArbitrationId", "j1939_source", "getter", [], ARB_SELF, [], INT, "gen_j1939_source"),
     Fn("ArbitrationId", "j1939_ps", "getter", [], ARB_SELF, [], INT, "gen_j1939_ps"),
@@ -139,6 +141,11 @@ def expr(e, env, cx):
         if t1 != t2 or b1 or b2:
             bad(e, "conditional expression")
         return bc, "(if %s then %s else %s)" % (c, x, y), t1
+    if isinstance(e, ast.Call) and isinstance(e.func, ast.Name) and e.func.id == "len" and len(e.args) == 1:
+        b, t, ty = expr(e.args[0], env, cx)
+        if ty != LISTPAIR:
+            bad(e, "len() of a non-list")
+        return b, "(Z.of_nat (length %s))" % t, INT
     if isinstance(e, ast.Call) and isinstance(e.func, ast.Name) and e.func.id == "int" and len(e.args) == 1:
         b, t, ty = expr(e.args[0], env, cx)
         if ty != INT:
@@ -259,6 +266,45 @@ def stmts(body, env, cx, k_end, k_break=None):
         env2 = dict(env)
         env2[key] = (v, ty)
         return with_binds(b, "let %s := %s in\n  %s" % (v, t, nxt(env2)))
+    if isinstance(s, ast.If) and isinstance(s.test, ast.BoolOp) and isinstance(s.test.op, ast.And):
+        # flow typing: `... and x is not None` refines an optional int to an int inside the then-branch
+        for i, cj in enumerate(s.test.values):
+            if isinstance(cj, ast.Compare) and len(cj.ops) == 1 and isinstance(cj.ops[0], ast.IsNot) \
+                    and isinstance(cj.comparators[0], ast.Constant) and cj.comparators[0].value is None \
+                    and isinstance(cj.left, ast.Name) and env.get(cj.left.id, (None, None))[1] == OPTINT:
+                others = s.test.values[:i] + s.test.values[i + 1:]
+                # the other conjuncts must not mention the refined name before the test (short-circuit order)
+                if any(isinstance(n, ast.Name) and n.id == cj.left.id for o in s.test.values[:i] for n in ast.walk(o)):
+                    break
+                v = cx.fresh(cj.left.id + "_v")
+                env_t = dict(env)
+                env_t[cj.left.id] = (v, INT)
+                t_else = stmts(s.orelse, env, cx, nxt, k_break)
+                inner_test = others[0] if len(others) == 1 else ast.BoolOp(op=ast.And(), values=others)
+                ast.copy_location(inner_test, s)
+                bb, c = cond(inner_test, env_t, cx)
+                t_then = stmts(s.body, env_t, cx, lambda e2: nxt({**e2, cj.left.id: env[cj.left.id]}), k_break)
+                return "match %s with None => (%s) | Some %s => %s end" % (
+                    env[cj.left.id][0], t_else, v, with_binds(bb, "if %s then (%s) else (%s)" % (c, t_then, t_else)))
+    if isinstance(s, ast.For) and isinstance(s.iter, ast.Attribute) and isinstance(s.target, ast.Tuple):
+        # for a, b in self.<list of pairs>: if <cond>: return <e>      [else: ...]
+        b0, lst, lty = expr(s.iter, env, cx)
+        if lty != LISTPAIR or b0 or len(s.target.elts) != 2 or not all(isinstance(x, ast.Name) for x in s.target.elts):
+            bad(s, "for loop over this iterable")
+        if len(s.body) != 1 or not isinstance(s.body[0], ast.If) or s.body[0].orelse or \
+                not isinstance(s.body[0].body[-1], ast.Return):
+            bad(s, "for loop body (only `if c: ...; return e` is understood)")
+        a, bname = s.target.elts[0].id, s.target.elts[1].id
+        pv = cx.fresh("pr")
+        env_l = dict(env)
+        env_l[a] = ("(fst %s)" % pv, INT)
+        env_l[bname] = ("(snd %s)" % pv, INT)
+        bc, c = cond(s.body[0].test, env_l, cx)
+        if bc:
+            bad(s, "property access inside a loop condition")
+        t_found = stmts(s.body[0].body, env_l, cx, lambda e2: "None")
+        t_none = stmts(s.orelse, env, cx, nxt, k_break)
+        return "match find (fun %s => %s) %s with Some %s => (%s) | None => (%s) end" % (pv, c, lst, pv, t_found, t_none)
     if isinstance(s, ast.If):
         b, c = cond(s.test, env, cx)
         t_then = stmts(s.body, env, cx, nxt, k_break)
@@ -390,7 +436,7 @@ def regenerate(src_dir, gen_dir):
                 binders.append("(%s : %s)" % (p, COQTY[ty]))
             txt = "(* UNTRANSLATABLE %s.%s: %s *)\nDefinition %s %s : option unit := None." % (fn.cls, fn.name, str(e).replace("*)", "* )"), fn.coq_name, " ".join(binders))
             status[fn.coq_name] = "untranslatable: " + str(e)[:200]
-        per_file.setdefault(FILES[fn.cls], []).append(txt)
+        per_file.setdefault(fn.file or FILES[fn.cls], []).append(txt)
     os.makedirs(gen_dir, exist_ok=True)
     for fname, defs in per_file.items():
         text = ("(* GENERATED by harness/py2coq.py from src/canmatrix/canmatrix.py - do not edit. *)\n"
